@@ -52,17 +52,20 @@ type PipeEnd struct {
 	// WriteFaults: number of the write (1-based) at which an injected failure is offered to the
 	// explorer as an environment alternative; 0 = every write, -1 = never.
 	WriteFaults int
-	ReadFault   bool // offer "read fails with an I/O error" when blocked reads are released by EOF
-	nwrites     int
-	nonblock    bool
-	closes      int
-	Injected    int // injected write failures so far
-	OnClose     func()
-	wRead       string
-	wWrite      string
-	wClose      string
-	wPoll       string
-	wPollWait   string
+	// FailNext: the next FailNext writes fail (scripted, no choice); with FailKeepsLink the link stays up
+	FailNext      int
+	FailKeepsLink bool
+	ReadFault     bool // offer "read fails with an I/O error" when blocked reads are released by EOF
+	nwrites       int
+	nonblock      bool
+	closes        int
+	Injected      int // injected write failures so far
+	OnClose       func()
+	wRead         string
+	wWrite        string
+	wClose        string
+	wPoll         string
+	wPollWait     string
 }
 
 var pipeSeq int
@@ -137,6 +140,15 @@ func (e *PipeEnd) WriteMessage(b []byte) error {
 		return errBrokenPipe
 	}
 	e.nwrites++
+	if e.FailNext > 0 {
+		// scripted by the scenario: this write fails; the link dies with it unless FailKeepsLink
+		e.FailNext--
+		e.Injected++
+		if !e.FailKeepsLink {
+			p.dead = true
+		}
+		return errInjectedWrite
+	}
 	if e.WriteFaults == 0 || e.WriteFaults == e.nwrites {
 		if vs.Choose(vs.KEnv, 2) == 1 {
 			vs.Logf("%s: write %d fails (injected)", e, e.nwrites)
